@@ -10,7 +10,7 @@ holding patch.diff + demo*.py + meta.json):
   6. remove the worktree
 
 usage: tools_seeded.py <dir> [--checks C01 C04 ...] [--tier quick] [--seeds 0]
-       tools_seeded.py --all [--tier quick]
+       tools_seeded.py --all [--tier quick] [--fast] [--part i/n]
 prints one JSON line per change; never touches /repo's working tree.
 """
 import argparse
@@ -72,7 +72,8 @@ def demo(wt, d):
     return rc, out[-600:]
 
 
-def evaluate(d, checks=None, tier="quick", seeds=(0,), keep=False):
+def evaluate(d, checks=None, tier="quick", seeds=(0,), keep=False,
+             fast=False):
     meta = {}
     mf = os.path.join(d, "meta.json")
     if os.path.exists(mf):
@@ -88,19 +89,23 @@ def evaluate(d, checks=None, tier="quick", seeds=(0,), keep=False):
         out["error"] = o
         return out
     try:
-        rc0, o0 = demo(wt, d)
-        out["demo_unchanged_rc"] = rc0
+        if not fast:
+            rc0, o0 = demo(wt, d)
+            out["demo_unchanged_rc"] = rc0
         rc, o = sh(["git", "-C", wt, "apply", os.path.join(d, "patch.diff")])
         if rc:
             out["error"] = "patch does not apply: " + o[-300:]
             return out
-        out["suite_missing"] = suite(wt)
-        rc1, o1 = demo(wt, d)
-        out["demo_patched_rc"] = rc1
-        if rc0 != 0:
-            out["demo_unchanged_tail"] = o0
-        if rc1 == 0:
-            out["demo_patched_tail"] = o1
+        if not fast:
+            # (fast: regression of the checks only; suite and demonstration
+            # were confirmed when the change was collected)
+            out["suite_missing"] = suite(wt)
+            rc1, o1 = demo(wt, d)
+            out["demo_patched_rc"] = rc1
+            if rc0 != 0:
+                out["demo_unchanged_tail"] = o0
+            if rc1 == 0:
+                out["demo_patched_tail"] = o1
         res = {}
         for c in checks:
             for s in seeds:
@@ -128,19 +133,27 @@ def main():
     ap.add_argument("--checks", nargs="*")
     ap.add_argument("--tier", default="quick")
     ap.add_argument("--seeds", nargs="*", type=int, default=[0])
+    ap.add_argument("--fast", action="store_true",
+                    help="apply the patch and run the checks only")
+    ap.add_argument("--part", default="0/1",
+                    help="with --all: i/n = every n-th change from the i-th")
     a = ap.parse_args()
     dirs = sorted(glob.glob(os.path.join(ROOT, "seeded", "*"))) if a.all \
         else [a.dir]
+    if a.all:
+        i, n = map(int, a.part.split("/"))
+        dirs = dirs[i::n]
     bad = 0
     for d in dirs:
         if not os.path.exists(os.path.join(d, "patch.diff")):
             continue
-        r = evaluate(d, a.checks, a.tier, a.seeds)
+        r = evaluate(d, a.checks, a.tier, a.seeds, fast=a.fast)
         print(json.dumps(r))
         sys.stdout.flush()
-        ok = (r.get("caught") and not r.get("suite_missing")
-              and r.get("demo_unchanged_rc") == 0
-              and r.get("demo_patched_rc") not in (0, None))
+        ok = r.get("caught") and not r.get("error") and (a.fast or (
+            not r.get("suite_missing")
+            and r.get("demo_unchanged_rc") == 0
+            and r.get("demo_patched_rc") not in (0, None)))
         bad += not ok
     return 1 if bad else 0
 
